@@ -59,3 +59,28 @@ Definition pyproject_oracle (c : bytes * node * list (bytes * option (bytes * by
       if negb (list_eqb pair_eqb decl expected) then 5
       else if list_eqb pair_eqb impl decl then 0 else if known then 7 else 6
   end.
+
+(* pnpm-workspace.yaml and workflows: the reference reading of the real tree-sitter-yaml tree.  Codes as above; 8 = the
+   document is outside the documented shape (pnpm_shape_ok / gha_regular fails) and the lists differ.  For workflows the
+   implementation's list is (name, hash or version). *)
+From VL Require Import Spec.YamlDoc.
+Definition pnpm_oracle (c : bytes * node * list (bytes * bytes) * list (bytes * bytes)) : N :=
+  let '(content, cst, impl, expected) := c in
+  match denote_yaml content cst with
+  | None => 4
+  | Some v =>
+      let decl := declared_pnpm v in
+      let known := pnpm_known v in
+      if negb (list_eqb pair_eqb decl expected) then 5
+      else if list_eqb pair_eqb impl decl then 0 else if known then 7 else if negb (pnpm_shape_ok v) then 8 else 6
+  end.
+Definition gha_oracle (c : bytes * node * list (bytes * bytes) * list (bytes * bytes)) : N :=
+  let '(content, cst, impl, expected) := c in
+  match denote_yaml content cst with
+  | None => 4
+  | Some v =>
+      let decl := declared_gha v in
+      let known := gha_known v in
+      if negb (list_eqb pair_eqb decl expected) then 5
+      else if list_eqb pair_eqb impl decl then 0 else if known then 7 else if negb (gha_regular v) then 8 else 6
+  end.
